@@ -7,6 +7,7 @@ Tie:    encode_to_vec / encoded_len of the emitted code on in-range values and o
         pattern), compared with the Lean encoder model; the reference specification (Pdlv.Ref)
         decides whether an accepted value was truncated.
 """
+import json
 import os
 import sys
 
@@ -28,6 +29,13 @@ def main(argv):
     for i, d in enumerate(co.descs):
         for T in co.packet_types(i):
             vals = wc.values(i, T, wc.sz["values"], faults=True)
+            # the witnesses of the recorded findings are replayed on every run
+            for k in run.known:
+                w = k.get("witness", {})
+                if w.get("pdl", "").strip() == d["text"].strip() and w.get("type") == T:
+                    wv = json.loads(w["value_json"]) if "value_json" in w else w.get("value")
+                    if wv is not None:
+                        vals.append((wv, None))
             cases = []
             for v, inj in vals:
                 cases += [{"k": "enc", "v": v}, {"k": "ref", "v": v}, {"k": "len", "v": v}]
@@ -56,7 +64,13 @@ def main(argv):
                     if ref.get("r") != "ok":
                         # accepted although the reference gives the value no encoding: what was dropped?
                         site = idl.get("e") if idl.get("r") == "err" else None
-                        rep["signature"] = {"class": "truncation", "reference_error": site}
+                        rep["signature"] = {"class": "truncation", "reference_error": site,
+                                            "agrees_with_model_of_emitted_code": W.same_enc(r, m)}
+                        # the one documented deviation: array size modifiers are ignored by the Rust back end,
+                        # so the size field of `x: 8[+2]` overflows two elements later than in the reference
+                        if site == "SizeOverflow" and any(f.get("kind") == "array_field" and f.get("size_modifier")
+                                                           for x in d["analyzed"]["declarations"] for f in x.get("fields", [])):
+                            rep["signature"]["array_modifier"] = True
                         run.violation("impl", "%s::encode accepted a value the reference cannot encode (reference: %s) "
                                       "and wrote %s" % (T, site, r["hex"][:60]), rep)
                 else:
